@@ -44,6 +44,22 @@ CHECKS = {
             "The schedule quantifier is literal: the real front-end's specification of each sub-block is executed by a reference evaluator under seeded linearisations of its operations that respect only the declared ordering constraints and data flow (uniform / reverse / stores-first / loads-first / depth-first policies) plus targeted two-order schedules for every unordered pair of accesses that collide on the concrete state, and compared with the reference interpreter running the original instructions. Failing blocks are minimised.",
             "Trusts R1/R3 (gsim/ref/evm.py, speceval.py); states and schedules sampled (8x8 per specification quick, 32x40 thorough); no offset wrap modulo 2^256.",
             TECH + ": seeded scheduler over the specification's partial order, targeted reorderings of colliding unordered accesses"),
+    "C05": ("fault_enumeration", "§5 C05",
+            "Single-edit semantic mutants of a block (operand swap, signed/unsigned and shift-kind substitution, constant change, dropped/duplicated/reordered store, wrong DUP/SWAP index, dropped POP) are enumerated at every applicable position and judged by the real checker; every accepted mutant is run against the reference interpreter on 48 states. Reflexivity on every base block (raw comparison must not raise). A byzantine solver peer corrupts decoded sequences in whole-pipeline runs. The forves adapter is run against a fake peer that sees only the rendered file: rendered segments must be exactly the compared sequences, peer faults must never become 'true'.",
+            "Mutants capped at 14 (quick) / 40 (thorough) per base block, base blocks sampled; R1 decides distinguishability; forves binary is a fake peer.",
+            TECH + ": enumerated single-edit corruption of checker inputs and solver replies, fake external-checker peer"),
+    "C06": ("exploration", "§5 C06",
+            "The real encoder's problem text for a specification/option set is answered by several simulated solver peers (optimal, arbitrary models under random phase, reweighted and cost-maximising objectives, n-th model under blocking clauses); each reply is decoded by the repo's own model reader and validated by the symbolic stack executor R2 within the declared bounds; every emitted .smt2 is checked by an own SMT-LIB reader and by z3.",
+            "Models are sampled (7 peers quick / 11 thorough per instance), not enumerated; encoder flags sampled from the 2^9 combinations; OMS is a wire-format stub.",
+            TECH + ": the solver's choice of model played by seeded peers over the real encoder and model reader"),
+    "C07": ("exploration", "§5 C07",
+            "Weakest fit: small instances (length bound <= 6) are optimised by the real z3 peer under 3-4 encoder option sets and compared with a brute-force reference synthesiser: satisfiable whenever a witness exists, optimum cost equal to the reference minimum and equal across option sets, and soft-constraint weight minus reference cost constant over sampled models.",
+            "Sampling only; no fault or schedule is involved beyond the peer and the option swarm. One recorded finding (byte sizes capped at 5 in the size objective).",
+            TECH + ": optimising peer + option swarm against a brute-force reference synthesiser"),
+    "C16": ("exploration", "§5 C16",
+            "For each specification the history of realizing sequences observed (solver peers of several kinds, greedy, brute force for bounds <= 6), each validated by R2, is confronted with the published bounds: a witness within init_progr_len/max_sk_sz must exist (infeasibility only reported when brute force exhausts the space), no realizing sequence is shorter than min_length, original_instrs equals the reported sub-block.",
+            "Infeasibility verdicts only for init_progr_len <= 6; larger instances without witness are undecided and counted.",
+            TECH + ": peer as witness finder / length optimiser, history of validated sequences, brute-force reference"),
 }
 NA = {
     "C03": "pure function of a term on 256-bit words: no schedule, clock, peer, file, crash or history between term and rewritten term (rule bait still runs through C01/C02 as a side effect)",
